@@ -569,6 +569,29 @@ fn run_scenario(sc: &J) -> J {
     configure_gc(sc);
     for p in programs {
         let kind = p.get("kind").and_then(|k| k.as_str()).unwrap_or("snippet");
+        if kind == "newvm" {
+            // the host drops its interpreter and creates another one ON THE SAME THREAD (the heap is thread-local and shared)
+            let r = panic::catch_unwind(panic::AssertUnwindSafe(|| {
+                let mut fresh = Vm::with_built_ins();
+                fresh.set_printer(printer);
+                fresh.set_module_loader(loader);
+                fresh
+            }));
+            let events = SIM.with(|s| std::mem::take(&mut s.borrow_mut().events));
+            match r {
+                Ok(fresh) => {
+                    let old = std::mem::replace(&mut vm, fresh);
+                    let _ = panic::catch_unwind(panic::AssertUnwindSafe(move || drop(old)));
+                    outs.push(json!({"events": events, "outcome": {"newvm": true}}));
+                }
+                Err(p) => {
+                    outs.push(json!({"events": events, "outcome": {"panic": panic_msg(p)}}));
+                    std::mem::forget(vm);
+                    return finish(sc, outs);
+                }
+            }
+            continue;
+        }
         if kind == "reset" {
             let r = panic::catch_unwind(panic::AssertUnwindSafe(|| vm.reset()));
             let events = SIM.with(|s| std::mem::take(&mut s.borrow_mut().events));
